@@ -41,7 +41,7 @@ pub use self::commitment::{LtHash, StateCommitment};
 pub use self::state::{Address, State};
 use crate::crypto::Hash;
 use crate::crypto::hash::hash_all;
-use crate::crypto::merkle::{GENESIS_BLOCK_HASH, MerkleRoot};
+use crate::crypto::merkle::{BlockHash, GENESIS_BLOCK_HASH, MerkleRoot};
 use crate::{BlockId, Slot, Transaction};
 
 /// Identifies a block that is currently being executed.
@@ -190,6 +190,9 @@ struct BlockExec {
     /// parent block hash / genesis as a fallback) and chained over each executed
     /// transaction. This is the post-state root this node computed.
     state_hash: Hash,
+    /// Hash of the block this state was completed as, set by `end_block`.
+    /// `None` while the block is still being executed.
+    completed_as: Option<BlockHash>,
 }
 
 /// Placeholder execution engine that counts transactions and chains a state hash.
@@ -234,13 +237,21 @@ impl ExecutionEngine for DummyExecution {
         // real state root compounds upstream changes forward. Fall back to the
         // consensus-agreed parent block hash (or genesis) when we haven't
         // executed the parent ourselves: cold start, repair, or a parent
-        // already pruned by finalization.
+        // already pruned by finalization. A state only counts as the parent's
+        // once it was completed under exactly the parent's block hash: a block
+        // still in progress has no final state hash yet, and the pending block
+        // of the parent's slot may turn out to be a different block.
         let state_hash = parent
             .as_ref()
             .and_then(|p| {
                 self.blocks
                     .get(&InProgressBlock::Known(p.clone()))
-                    .or_else(|| self.blocks.get(&InProgressBlock::Pending(p.0)))
+                    .filter(|exec| exec.completed_as.as_ref() == Some(&p.1))
+                    .or_else(|| {
+                        self.blocks
+                            .get(&InProgressBlock::Pending(p.0))
+                            .filter(|exec| exec.completed_as.as_ref() == Some(&p.1))
+                    })
             })
             .map(|exec| exec.state_hash.clone())
             .unwrap_or_else(|| {
@@ -254,6 +265,7 @@ impl ExecutionEngine for DummyExecution {
             BlockExec {
                 tx_count: 0,
                 state_hash,
+                completed_as: None,
             },
         );
     }
@@ -282,14 +294,18 @@ impl ExecutionEngine for DummyExecution {
     }
 
     fn end_block(&mut self, block_id: BlockId) {
-        let result = self
-            .blocks
-            .get(&InProgressBlock::Known(block_id.clone()))
-            .or_else(|| self.blocks.get(&InProgressBlock::Pending(block_id.0)))
-            .map(|exec| ExecutionResult {
+        let key = if self.blocks.contains_key(&InProgressBlock::Known(block_id.clone())) {
+            InProgressBlock::Known(block_id.clone())
+        } else {
+            InProgressBlock::Pending(block_id.0)
+        };
+        let result = self.blocks.get_mut(&key).map(|exec| {
+            exec.completed_as = Some(block_id.1.clone());
+            ExecutionResult {
                 tx_count: exec.tx_count,
                 state_commitment: exec.state_hash.clone().into(),
-            });
+            }
+        });
         if let Some(result) = result {
             self.event_sender
                 .try_send(ExecutionEvent::BlockExecuted {
